@@ -211,8 +211,13 @@ impl KeyUniverse {
     pub fn new_hash(&mut self, owner: usize, kind: HashKind) -> usize {
         let id = self.hashes.len();
         let mut r = Rng::new(crate::rng::mix(&[self.seed, 0x4a5, id as u64]));
-        let preimage = r.bytes32();
+        let mut preimage = r.bytes32();
         let odd = crate::rng::mix(&[self.seed, 0x6f6464, id as u64]) % 10 == 0;
+        // One secret in sixteen is 32 zero bytes (a counterparty chose it): the vector most
+        // implementations use as "any 32 bytes that are not the preimage" IS the preimage here.
+        if !odd && crate::rng::mix(&[self.seed, 0x7a65726f, id as u64]) % 16 == 0 {
+            preimage = [0u8; 32];
+        }
         let psbt_value: Vec<u8> = if odd {
             let len = *r.pick(&[0usize, 1, 20, 31, 33, 64]);
             (0..len).map(|_| r.below(256) as u8).collect()
